@@ -127,7 +127,7 @@ theorem inv_join (hc : S.Closed) (h : Inv S s) (g mid : Nat) (se rb : Int) (pt :
     · simp only [persist_persisted]; rfl
     · simp only [persist_joinLog]; rfl
 
-theorem inv_sync (hc : S.Closed) (h : Inv S s) (g mid gen : Nat) : Inv S (sync fixed s g mid gen).1 := by
+theorem inv_sync (hc : S.Closed) (h : Inv S s) (g mid : Nat) (gen : Int) : Inv S (sync fixed s g mid gen).1 := by
   have hfin : ∀ (s2 : State) (st : Group), Inv S s2 → S.G g s2.joinLog st → Inv S (syncFinish fixed s2 g st mid).1 := by
     intro s2 st hi hg
     unfold syncFinish
@@ -155,7 +155,7 @@ theorem inv_sync (hc : S.Closed) (h : Inv S s) (g mid gen : Nat) : Inv S (sync f
               exact hc.assign g _ st s1 hg hcomp.1 hcomp.2
           · exact hfin _ _ h1 hg
 
-theorem inv_heartbeat (hc : S.Closed) (h : Inv S s) (g mid gen : Nat) : Inv S (heartbeat fixed s g mid gen).1 := by
+theorem inv_heartbeat (hc : S.Closed) (h : Inv S s) (g mid : Nat) (gen : Int) : Inv S (heartbeat fixed s g mid gen).1 := by
   unfold heartbeat
   split
   · exact h.clearFetch
@@ -224,7 +224,7 @@ theorem inv_cleanup (hc : S.Closed) (h : Inv S s) : Inv S (cleanup fixed s) := b
       rw [cleanupGroup_joinLog, hlog]
   exact key s.groups s h rfl h.1
 
-theorem inv_commit (hc : S.Closed) (h : Inv S s) (g mid gen : Nat) (parts : List (Nat × Int × Int × Nat)) :
+theorem inv_commit (hc : S.Closed) (h : Inv S s) (g mid : Nat) (gen : Int) (parts : List (Nat × Int × Int × Nat)) :
     Inv S (commit fixed s g mid gen parts).1 := by
   have hw : ∀ (parts : List (Nat × Int × Int × Nat)) (s2 : State), Inv S s2 → Inv S (commitWrites s2 g parts).1 := by
     intro parts
